@@ -240,7 +240,7 @@ PROPS = {
         "mc": {"quick": [mc("Query-2x3", maxops=3, ops=QOPS, scripts="ScriptsPlain", cfgs="CfgsUnb", must_cover=("Query", "AwaitReturn", "StopTaken"))],
                "thorough": [mc("Query-3x3", maxops=3, clients=C3, ops=QOPS, scripts="ScriptsPlain", cfgs="CfgsUnb", kinds="InitKindsAW")]},
         "dev_demo": [("D1", mc("Query-2x3", maxops=3, ops=QOPS, scripts="ScriptsPlain", cfgs="CfgsUnb"))],
-        "families": [("life", 200, 2000), ("registry", 150, 1500), ("fail", 100, 1000), ("awaiters", 80, 800), ("mix", 120, 1200)],
+        "families": [("life", 200, 2000), ("registry", 150, 1500), ("fail", 100, 1000), ("awaiters", 80, 800), ("stream", 100, 1000), ("mix", 120, 1200)],
         "relevant": r'"op":"(stopped|running|try_from_registry|already_running)"', "relevant_min": 1,
     },
     "C15": {
@@ -249,7 +249,7 @@ PROPS = {
                "thorough": [mc("Kinds-2x3", maxops=3, ops=KOPS, scripts="ScriptsStop", cfgs="CfgsUnb", kinds="InitKindsCaller"), 
                             mc("Kinds-sc-2x3", maxops=3, ops=KOPS, scripts="ScriptsRestart", cfgs="CfgsUnb", kinds="InitKindsSC")]},
         "dev_demo": [("D2", mc("Kinds-2x2", ops=KOPS, scripts="ScriptsStop", cfgs="CfgsUnb", kinds="InitKindsCaller"))],
-        "families": [("life", 250, 2500), ("timers", 80, 800), ("restart", 80, 800), ("mix", 120, 1200)],
+        "families": [("life", 250, 2500), ("timers", 80, 800), ("restart", 80, 800), ("stream", 100, 1000), ("broker", 60, 600), ("mix", 120, 1200)],
         "relevant": r'"op":"(caller|sender|upgrade|weak_caller|weak_sender)"|ctx_stop', "relevant_min": 1,
     },
     "C16": {
